@@ -12,11 +12,16 @@ def main():
     import importlib
 
     mod = importlib.import_module("vt.checks." + prop.lower())
+    import os
+    from vt.mon import probes
+    if os.environ.get("VT_PROBES", "1") != "0" and spec.get("batch", 0) == 0:
+        probes.start()  # reach counters are taken in one batch only (PY_START callbacks roughly double the run time)
     if "replay" in spec:
         res = mod.replay(spec["replay"])
     else:
         res = mod.run_batch(spec)
     res["nontrivial"] = sorted(set(res.get("nontrivial", [])))
+    res.setdefault("counters", {}).update(probes.snapshot())
     sys.stdout.write("\nRESULT " + json.dumps(res, default=str) + "\n")
     sys.stdout.flush()
 
